@@ -8,7 +8,7 @@ Before == IF prev = <<>> THEN "empty"
 Sub == IF at = "m_csv" /\ folder["csv"].st \in {"partial", "garbled"} THEN <<"partial", folder["csv"].rows, folder["csv"].cut>>
        ELSE IF at \in {"m_params", "m_sched", "m_loss"} /\ folder[FileOf(at)].st = "partial" THEN <<"partial", 0, FALSE>>
        ELSE IF at = "w_h5" /\ folder["h5"].st = "partial" THEN <<"partial", 0, FALSE>>
-       ELSE IF at = "w_h5" /\ \E i \in 1..Len(folder["h5"].tags) : folder["h5"].tags[i] = "zero" THEN <<"resized", 0, FALSE>>
+       ELSE IF at = "w_h5" /\ \E i \in 1..Len(folder["h5"].tags) : folder["h5"].tags[i] = <<"zero", 0>> THEN <<"resized", 0, FALSE>>
        ELSE <<"clean", 0, FALSE>>
 Tabulate == pc = "crashed" => PrintT(<<"CP", Before, at, Sub, mem[1].rows, Outcome>>)
 =============================================================================
